@@ -210,3 +210,49 @@ func (o *Once) Do(f func()) {
 	}()
 	f()
 }
+
+// Pool behaves the way sync.Pool does for goroutines that share a processor:
+// Get hands back the object Put most recently (or calls New). Put → Get of
+// the same pool is a happens-before edge, as in the real pool.
+type Pool struct {
+	New   func() any
+	items []any
+	real  sync.Pool
+}
+
+func (p *Pool) Get() any {
+	if zzverif.Free() {
+		p.real.New = p.New
+		return p.real.Get()
+	}
+	zzverif.Yield()
+	if n := len(p.items); n > 0 {
+		x := p.items[n-1]
+		p.items = p.items[:n-1]
+		zzverif.HBAcquire(p)
+		return x
+	}
+	if p.New != nil {
+		return p.New()
+	}
+	return nil
+}
+
+func (p *Pool) Put(x any) {
+	if zzverif.Free() {
+		p.real.Put(x)
+		return
+	}
+	zzverif.Yield()
+	if x == nil {
+		return
+	}
+	zzverif.HBRelease(p)
+	p.items = append(p.items, x)
+	// whoever still uses x after giving it back runs concurrently with the
+	// next owner: let the scheduler place another thread right here
+	zzverif.Yield()
+}
+
+// Cond is not modelled: code that needs it does not compile against zzsync,
+// and the check then reports that it cannot decide (exit 2).
